@@ -16,7 +16,12 @@ class Deadlock(Exception):
 
 
 class Scheduler:
-    def __init__(self, files, workloads, schedule, timeout=60.0):
+    def __init__(self, files, workloads, schedule, timeout=60.0, functions=None, contexts=None):
+        """functions: optional {filename: set of function names}; lines of those functions are yield points
+        too. contexts: optional list of contextvars.Context copies, one per worker, to run the workload in
+        (threads started with context propagation: asyncio.to_thread, copy_context().run on a pool thread)"""
+        self.functions = functions or {}
+        self.contexts = contexts
         self.files = {f for f in files}
         self.workloads = workloads
         self.n = len(workloads)
@@ -34,8 +39,10 @@ class Scheduler:
 
     # --- tracing
     def _global(self, frame, event, arg):
-        if event == "call" and frame.f_code.co_filename in self.files:
-            return self._local
+        if event == "call":
+            fn = frame.f_code.co_filename
+            if fn in self.files or frame.f_code.co_name in self.functions.get(fn, ()):
+                return self._local
         return None
 
     def _local(self, frame, event, arg):
@@ -86,7 +93,10 @@ class Scheduler:
             return
         sys.settrace(self._global)
         try:
-            self.results[tid] = self.workloads[tid]()
+            if self.contexts is not None:
+                self.results[tid] = self.contexts[tid].run(self.workloads[tid])
+            else:
+                self.results[tid] = self.workloads[tid]()
         except Deadlock:
             self.results[tid] = ("DEADLOCK",)
         except BaseException as e:  # noqa: BLE001 - the workload's own failure is an observation
